@@ -7,8 +7,8 @@ EMPTY_COVERAGE = dict(evaluations=0, distinct_nontrivial=0, rule="", samples=[])
 SRC = ["harness/c09.c", "harness/cpp_shim.cpp", "harness/sysrand.c", "ref/ref.c"]
 
 
-def cfgname(be, tr, chk):
-    return "%s-k%dd%dm%d%s" % (be, tr[0], tr[1], tr[2], "-checker" if chk else "")
+def cfgname(be, tr, chk, cc="gcc", opt="-O2"):
+    return "%s-k%dd%dm%d%s%s" % (be, tr[0], tr[1], tr[2], "-checker" if chk else "", "" if (cc, opt) == ("gcc", "-O2") else "-%s%s" % (cc, opt))
 
 
 def run(ctx):
@@ -28,13 +28,21 @@ def run(ctx):
                 configs.append((be, tr, False))
         configs += [("dxor", D, False), ("generic", D, False), ("dxor", (2, 1, 2), False), ("generic", (3, 3, 3), False)]
         configs += [("generic", D, True), ("generic", (4, 1, 4), True), ("generic", (2, 2, 2), True), ("generic", (3, 3, 3), True), ("generic", (4, 4, 4), True), ("generic", (2, 1, 2), True)]
+    # other compilers and optimisation levels (not a configuration option of the library, but the same sources must give the same bytes)
+    for be in (("asm", "c64", "c32", "dxor", "generic") if ctx.thorough else ("asm", "c64", "c32", "generic")):
+        configs.append((be, D, False, "clang", "-O3"))
+        configs.append((be, D, False, "gcc", "-O3"))
+        if ctx.thorough or be == "c32":
+            configs.append((be, D, False, "gcc", "-O0"))
+            configs.append((be, (3, 3, 3), False, "clang", "-O1"))
     results = {}
 
     def one(c):
-        be, tr, chk = c
-        name = cfgname(*c)
+        be, tr, chk = c[:3]
+        cc, opt = (c[3], c[4]) if len(c) > 3 else ("gcc", "-O2")
+        name = cfgname(be, tr, chk, cc, opt)
         try:
-            lib = build.build_lib(be, tr, checker=chk)
+            lib = build.build_lib(be, tr, checker=chk, cc=cc, opt=opt)
             exe = build.build_prog("c09", SRC, lib, opt="-O2")
         except build.BuildError as e:
             ctx.fail("build-error:" + name, str(e)[-800:])
@@ -94,7 +102,7 @@ def run(ctx):
     ]
     cov = dict(evaluations=ctx.stats.get("evaluations", 0) + ctx.stats.get("live_sequences", 0),
                distinct_nontrivial=len(results) + ctx.stats.get("live_sequences", 0),
-               rule="one process per build configuration runs the common workload (every public function family, ~%d item groups) and prints a digest per item group; digests must equal those of the "
+               rule="configurations = back end x share triple (x checker), plus the default triple under clang -O3 / gcc -O3 / gcc -O0 / clang -O1; one process per build configuration runs the common workload (every public function family, ~%d item groups) and prints a digest per item group; digests must equal those of the "
                     "default configuration and every value must equal the reference; the checker build must reach the end of the workload and survive every interleaved op sequence (depth <= 3) on every ordered pair of live object kinds. "
                     "distinct_nontrivial = configurations run + live sequences" % len(base),
                exhaustive=True)
